@@ -3,6 +3,7 @@ package mon
 import (
 	"fmt"
 	"math/rand"
+	"sort"
 	"strconv"
 	"strings"
 
@@ -182,6 +183,7 @@ func vary(r *rand.Rand, ops []spec.Op, v variation) []spec.Op {
 	}
 	if v.order {
 		r.Shuffle(len(rules), func(i, j int) { rules[i], rules[j] = rules[j], rules[i] })
+		sws = permuteCommuting(r, sws)
 	}
 	// merge: switch-like ops keep their relative order, at random positions (or at the end)
 	var out []spec.Op
@@ -210,6 +212,114 @@ func vary(r *rand.Rand, ops []spec.Op, v variation) []spec.Op {
 		for i := range out {
 			out[i].Fresh = r.Intn(2) == 0
 		}
+	}
+	return out
+}
+
+// swWrites: the settings a switch-like call writes, as documented (every link option and every scheme
+// call also switches URL parsing on). Two calls commute when every setting both of them write
+// gets the same value from both; validators of one scheme accumulate, so they commute too.
+func swWrites(o spec.Op) map[string]string {
+	w := map[string]string{}
+	std := func() {
+		w["parseable"], w[spec.SwRelative], w[spec.SwNoFollow] = "true", "true", "true"
+		for _, n := range []string{"mailto", "http", "https"} {
+			w["scheme:"+n] = "plain"
+		}
+	}
+	switch o.K {
+	case spec.KSwitch:
+		n := o.Names[0]
+		if n == spec.SwParseable {
+			w["parseable"] = fmt.Sprint(o.B)
+			break
+		}
+		w[n] = fmt.Sprint(o.B)
+		switch n {
+		case spec.SwNoFollow, spec.SwNoFollowFQ, spec.SwNoReferrer, spec.SwNoReferrerFQ, spec.SwTargetBlank, spec.SwRelative:
+			w["parseable"] = "true"
+		}
+	case spec.KSchemes:
+		w["parseable"] = "true"
+		for _, n := range o.Names {
+			w["scheme:"+strings.ToLower(n)] = "plain"
+		}
+	case spec.KSchemeCustom:
+		w["parseable"] = "true"
+		w["scheme:"+strings.ToLower(o.Names[0])] = "validators"
+	case spec.KDataURIImages:
+		w["parseable"] = "true"
+		w["scheme:data"] = "validators"
+	case spec.KStdURLs, spec.KImages:
+		std()
+	case spec.KSkip:
+		for _, n := range o.Names {
+			w["content:"+strings.ToLower(n)] = "skip"
+		}
+	case spec.KKeep:
+		for _, n := range o.Names {
+			w["content:"+strings.ToLower(n)] = "keep"
+		}
+	case spec.KSandbox, spec.KIFrames:
+		is := append([]int{}, o.Ints...)
+		sort.Ints(is)
+		w["sandbox"] = fmt.Sprint(is)
+	case spec.KRewrite:
+		w["rewrite"] = o.Check
+	case spec.KUnsafe:
+		w["unsafe"] = fmt.Sprint(o.B)
+	default:
+		w["*"] = o.String()
+	}
+	return w
+}
+
+func commute(a, b map[string]string) bool {
+	if _, ok := a["*"]; ok {
+		return false
+	}
+	if _, ok := b["*"]; ok {
+		return false
+	}
+	for k, va := range a {
+		if vb, ok := b[k]; ok && vb != va {
+			return false
+		}
+	}
+	return true
+}
+
+// permuteCommuting returns a random reordering of the switch-like calls in which two calls
+// that do not commute keep their relative order ("each option reflects its most recent setting",
+// and a setting is only touched by the calls documented to touch it).
+func permuteCommuting(r *rand.Rand, sws []spec.Op) []spec.Op {
+	n := len(sws)
+	ws := make([]map[string]string, n)
+	for i, o := range sws {
+		ws[i] = swWrites(o)
+	}
+	done := make([]bool, n)
+	out := make([]spec.Op, 0, n)
+	for len(out) < n {
+		var ready []int
+		for i := 0; i < n; i++ {
+			if done[i] {
+				continue
+			}
+			ok := true
+			for j := 0; j < i; j++ {
+				if !done[j] && !commute(ws[j], ws[i]) {
+					ok = false
+					break
+				}
+			}
+			if ok {
+				ready = append(ready, i)
+			}
+		}
+		pick := ready[r.Intn(len(ready))]
+		done[pick] = true
+		out = append(out, sws[pick])
 	}
 	return out
 }
@@ -334,7 +444,7 @@ func c17Probes(r *rand.Rand, env *Env, n int) []string {
 
 func c17Describe(ctx *core.Ctx) {
 	ctx.Rule = "random rule sets; each is built through a canonical history and through rule-equivalent histories (permuted rule calls with switch-like calls interleaved in their relative order, upper/mixed-case names, duplicated rule calls, switches toggled before their final value, fresh regexp objects for the same pattern) and both policies sanitise conforming + hostile probe inputs; a difference is localised by replaying each variation kind alone; independence: a policy's outputs and reflection fingerprint before/after another instance (incl. UGCPolicy/StrictPolicy/NewPolicy siblings) is built, extended and used, and fresh instances created late must equal fresh instances created early; non-trivial = a probe on which the compared policies emit markup, distinct by (rule set, history, probe)"
-	ctx.Assume("switch-like calls (booleans, scheme registrations, skip/keep content, sandbox set, rewriter, helpers that contain switches) keep their relative order; only rule calls are permuted", "caller-owned slices passed to MatchingEnum are not mutated (outside the property)")
+	ctx.Assume("switch-like calls (booleans, scheme registrations, skip/keep content, sandbox set, rewriter, helpers that contain switches) keep their relative order whenever they write a common setting with different values (documented side effects included: every link option and scheme call switches URL parsing on); calls that touch different settings are permuted like rule calls", "caller-owned slices passed to MatchingEnum are not mutated (outside the property)")
 }
 
 func c17Floors(ctx *core.Ctx) {
